@@ -21,7 +21,7 @@ func TestMain(m *testing.M) {
 func ProcessNodeFlags() NodeFlags {
 	if os.Getenv("VERIF_NODE_OPTS") == "1" {
 		return NodeFlags{Telemetry: true, InterBlockCache: true, IAVLCacheSize: 100, Pruning: "everything", MinGasPrices: "0.025uc4e",
-			Trace: true, IndexEvents: true, HaltHeight: 1_000_000}
+			Trace: true, IndexEvents: true, HaltHeight: 4_000_000_000}
 	}
 	return NodeFlags{}
 }
